@@ -216,6 +216,18 @@ func init() {
 		obj := e.newObject(types.NewArray(st.Elem(), int64(len(posts))), arr, "ncs posts")
 		return &SliceV{Arr: obj, Len: len(posts), Cap: len(posts)}, false
 	})
+	reg("ConcreteClock", func(e *Exec, fv *FuncV, args []Value, cc *ssa.CallCommon) (Value, bool) {
+		t := args[0].(*Term)
+		if !t.Const {
+			e.unsupported("ConcreteClock with symbolic step")
+		}
+		if t.U == 0 {
+			delete(e.ext, "clock.step")
+		} else {
+			e.ext["clock.step"] = t.U
+		}
+		return nil, false
+	})
 	reg("Symbolic", func(e *Exec, fv *FuncV, args []Value, cc *ssa.CallCommon) (Value, bool) {
 		return e.C.True, false
 	})
